@@ -525,6 +525,7 @@ Definition text_do_convert (v : value) : result value :=
   match v with
   | PBytes _ b => match o_utf8_decode orc b with Some s => Ok (PStr false s) | None => Raise E_Unicode end
   | PNone => Ok PNone
+  | PSet _ => Ok (PStr false (safe_repr v))       (* fixed element order *)
   | _ =>
     let via_str := bind (str_raise v) (fun s => Ok (PStr false s)) in
     match v with
@@ -590,6 +591,10 @@ Definition datetime_do_convert (zone : str) (v : value) : result value :=
 Definition strs_of (items : list value) : result value :=
   bind (map_result (fun x => bind (str_raise x) (fun s => Ok (PStr false s))) items) (fun l => Ok (PTuple l)).
 
+(* tuple(sorted(str(item) for item in a_set)) *)
+Definition strs_of_sorted (items : list value) : result value :=
+  bind (map_result str_raise items) (fun l => Ok (PTuple (map (PStr false) (sort_strs l)))).
+
 Definition choicelist_do_convert (v : value) : result value :=
   match py_truthy v with
   | None => Raise E_Type
@@ -603,6 +608,7 @@ Definition choicelist_do_convert (v : value) : result value :=
             | None => Ok v
             end
           else Ok v
+      | PSet l => strs_of_sorted l
       | _ => bind (py_iter v) strs_of
       end
   end.
